@@ -125,6 +125,20 @@ def single_case(ctx, case):
                 ctx.state(('single', pos, can, signer, dn, final, fl, allowed))
                 judge(ctx, [w, lock], cache, want, {'lock': 'delegate_key_lock'},
                       f't at {pos} can={can} cert signer={signer} t-now={THR + dn} final signer={final} flag={fl} allowed={allowed}', now)
+    # windows whose bounds use the top bit of their four bytes (the certificate class refuses to issue them; the lock takes any 105 bytes
+    # the root signed): bounds are unsigned
+    if case == ('begin', True, 'correct'):
+        env.Clock.now = t
+        lock = T.make_delegate_key_lock(pk['root']).bytes
+        for b_, e_ in ((t - 5, 0xffffffff), (t - 5, 0x80000000), (0, 0xffffffff), (0x80000000, 0xffffffff), (0x80000000, t + 50), (0x7fffffff, 0x80000001),
+                       (t - 5, 0x7fffffff), (0xffffffff, t + 50)):
+            n += 1
+            body = pk['d1'] + b_.to_bytes(4, 'big') + e_.to_bytes(4, 'big') + b'\x01'
+            raw = body + refed.sign(sk['root'], body)
+            w = T.make_delegate_key_witness(sk['d1'], raw, dict(fields)).bytes
+            ctx.state(('high-bit window', b_, e_))
+            judge(ctx, [w, lock], {**fields, 'timestamp': t}, b_ <= t < e_, {'lock': 'delegate_key_lock', 'window': 'bounds with the top bit set'},
+                  f'hand-serialised certificate with window [{b_:#x}, {e_:#x}) at t={t}', t)
     # every single-field corruption of the certificate bytes of an accepted pair
     if case == ('begin', True, 'correct'):
         env.Clock.now = t
